@@ -408,12 +408,12 @@ func runC05(p *core.Program, r *core.Report) {
 	pairRules(p, r, e)
 
 	r.Floor("R5.1", 2*52)
-	r.Floor("R5.2", 110)
+	r.Floor("R5.2", 90) // 110 templates today; merging switch cases that share code lowers the count
 	r.Floor("R5.3", 70)
 	r.Floor("R5.5", 70)
 	r.Floor("R5.6", 70)
 	r.Floor("R5.7", 3)
-	r.Floor("R5.4", 3)
+	r.Floor("R5.4", 2) // 3 sites today; the two jump encoders may share one checked conversion
 	r.Floor("R5.8", 3)
 }
 
